@@ -181,6 +181,13 @@ func properties() map[string]*PropertySpec {
 			td("H_TD_C19_bind", "bind answered", "<= 2 users x <= 2 attributes x <= 2 values, all names/values/DNs/passwords unbounded symbolic strings (duplicate DNs, prefix DNs, missing or empty password attributes included), both AllowAnonymousBind settings", "quick"),
 			td("H_TD_C19_bind3", "bind answered", "as quick with <= 3 users", "thorough"),
 		}})
+	add(&PropertySpec{ID: "C20",
+		Functions: "(*Directory).handleAdd, handleModify, handleDelete, handleSearchUsers closures, find, match, gldap.NewEntry, NewEntryAttribute, AddValue; requests produced by the real newRequest, responses decoded from the bytes written",
+		Outside:   []string{"refinement step instead of history exploration: one operation from an arbitrary valid store over a pool of 2 user DNs (none a substring of the other) related to a reference model, plus all sequences of 2 operations from the empty store; longer histories follow by induction on the relation", "DNs containing parentheses or '*'; group entries beyond one fixed group; token groups; concurrent clients (C15)", "values shorter than 10 bytes; a stored value may be plain or BER-wrapped"},
+		Harnesses: []HarnessSpec{
+			td("H_TD_C20_step", "step", "arbitrary store (each pool user present or not, 1-2 mail values, optional description, optional group) x one of add / delete / modify{add,delete,replace} x {mail,description} x 0..2 values / search, then every pool entry is searched and compared with the model", ""),
+			td("H_TD_C20_seq", "seq", "every sequence of two operations from the empty store", ""),
+		}})
 	add(&PropertySpec{ID: "C02",
 		Functions: "(*conn).readRequest, (*conn).readPacket, newRequest, newMessage, (*packet).{basicValidation,requestPacket,requestType,requestMessageID,simpleBindParameters,searchParmeters,modifyParameters,addParameters,deleteParameters,extendedOperationName,controlPacket,assert,assertApplicationRequest}, decodeControl, decodeAttribute, NewControl*",
 		Outside:   []string{"byte-level framing (length octets, truncation, EOC, oversize): the asn1-ber reader's error outcome by contract (DESIGN §5.1)", "panics inside asn1-ber's reader and go-ldap's DecompileFilter (it recovers)", "universal REAL and GeneralizedTime payloads (opaque values)", "trees deeper than 5 below the envelope or wider than the stated widths"},
